@@ -734,6 +734,15 @@ func (fx *Fx) applyCall(st *State, fn *types.Func, recv *Val, args []Val, call *
 		c.oblige(st, class, clauseAnchor(name, r, k), phi, "precondition of "+name+": "+r.Text, pos)
 		st.assume(phi)
 	}
+	if sp.Flags["callbacks"] != "" && fx.spec != nil && fx.spec.Flags["unlockedcallbacks"] != "" {
+		// the caller promises to run callbacks (consumers, handlers) holding none of its locks, so that a callback may
+		// call back into the object (register, unsubscribe) without deadlocking
+		var free []string
+		for _, mu := range c.locks {
+			free = append(free, fmt.Sprintf("(= (select %s %s) 0)", fx.lkHeap(st), mu))
+		}
+		c.oblige(st, "blocking", "callbacks-run-unlocked("+name+")", "(and true "+strings.Join(free, " ")+")", "no lock of this activation is held while "+name+" runs callbacks", pos)
+	}
 	pre := st.clone()
 	// frame
 	ms := fx.w.modsOfFunc(key, c, nil)
